@@ -132,6 +132,9 @@ func (w *World) sortOf(t types.Type) *Sort {
 	switch u := t.(type) {
 	case *types.Named:
 		if st, ok := u.Underlying().(*types.Struct); ok {
+			if !w.isValueStruct(u) {
+				return SRef
+			}
 			name := shortPkgOf(u) + "_" + u.Obj().Name()
 			if s, ok := w.Reg.byName[name]; ok {
 				return s
